@@ -93,6 +93,9 @@ def gen_c20(seed: int, tier: str) -> List[Dict[str, Any]]:
                     cases.append({"p": {"t": top, pos: {"t": "exc", ("context" if pos == "cause" else "cause"): {"t": t, "a": "two"}}}, "entry": entry})
     for entry in ("direct", "validate", "json"):
         cases.append({"p": {"t": "lazy", "a": "one"}, "entry": entry, "then_import": True})
+        for raw in ("raw_str", "raw_list", "raw_num"):
+            cases.append({"p": {"t": raw, "a": "none"}, "entry": entry})
+            cases.append({"p": {"t": "exc", "a": "one", "cause": {"t": raw, "a": "none"}}, "entry": entry})
     for t in allk:
         if not t.startswith("nomodule_"):
             cases.append({"p": {"t": t, "a": "one"}, "entry": "validate", "wrap": True})
